@@ -28,10 +28,10 @@ HIP_INPUTS = {
         ok=[('uniform', 130, 170), ('normal', 200, 8), ('triangular', 150, 180, 230), ('lognormal', 5.2, 0.05)],
         edge=[('uniform', 900, 1100), ('normal', 1000, 20)]),
     'Rejection Temperature': dict(
-        ok=[('uniform', 20, 33), ('triangular', 10, 25, 40), ('normal', 30, 2), ('lognormal', 3.2, 0.1)],
+        ok=[('uniform', 20, 33), ('triangular', 10, 25, 40), ('normal', 30, 2), ('lognormal', 3.2, 0.1), ('binomial', 30, 0.95)],
         edge=[('uniform', -4, 4), ('normal', 0.1, 1)]),
     'Reservoir Porosity': dict(
-        ok=[('uniform', 9.0, 28.0), ('triangular', 5, 10, 20), ('normal', 15, 1), ('lognormal', 2.5, 0.1)],
+        ok=[('uniform', 9.0, 28.0), ('triangular', 5, 10, 20), ('normal', 15, 1), ('lognormal', 2.5, 0.1), ('binomial', 20, 0.9)],
         edge=[('uniform', 90, 110), ('triangular', 95, 100, 105)]),
     'Reservoir Area': dict(
         ok=[('uniform', 50.0, 120.0), ('lognormal', 4.0, 0.2), ('normal', 80, 5), ('triangular', 40, 60, 100)],
@@ -49,7 +49,7 @@ HIP_INPUTS = {
         ok=[('uniform', 0.5, 0.9), ('triangular', 0.6, 0.75, 0.9)],
         edge=[('uniform', 0.9, 1.1)]),
     'Reservoir Life Cycle': dict(
-        ok=[('binomial', 60, 0.5), ('binomial', 40, 0.7)],
+        ok=[('binomial', 60, 0.5), ('binomial', 40, 0.7), ('binomial', 3, 0.5)],
         edge=[('binomial', 400, 0.25)], discrete=True),
 }
 
